@@ -1027,7 +1027,42 @@ fn judge(plan: &IPlan, o: &Obs, out: &mut Outcome) {
                 for &i in &window {
                     used[i] = true;
                 }
+                let same_key = |n: usize| -> Option<&[u8]> {
+                    let sw = req_sent[n].wire.as_ref()?;
+                    if sw.packet.len() < 8 || sw.t_us > d.at || d.at - sw.t_us > t_us + eps || sw.dst.is_ipv4() != v4 {
+                        return None;
+                    }
+                    let sid = u16::from_be_bytes([sw.packet[4], sw.packet[5]]);
+                    let sseq = u16::from_be_bytes([sw.packet[6], sw.packet[7]]);
+                    (sid == pid && sseq == pseq).then(|| &sw.packet[8..])
+                };
+                let prefix_related = |a: &[u8], b: &[u8]| if a.len() <= b.len() { b.starts_with(a) } else { a.starts_with(b) };
+                let merged_for = |told: usize| -> bool { (0..req_sent.len()).any(|n| {
+                    req_sent[n].client == told
+                        && !cands.contains(&n)
+                        && same_key(n).map_or(false, |rival| {
+                            (0..req_sent.len()).any(|x| {
+                                x != n
+                                    && same_key(x).map_or(false, |bridge| {
+                                        bridge.len() < rival.len()
+                                && rival.starts_with(bridge)
+                                && pdata.as_ref().map_or(true, |pd| prefix_related(pd, bridge))
+                                    })
+                            })
+                        })
+                }) };
                 match (expect, window.first()) {
+                    // (the known finding also shows when nobody is a candidate any more: the
+                    // requests that the packet answers have expired or their clients have left,
+                    // yet their waiter lives on, merged with the told client's own)
+                    (Some(false), Some(&i)) if merged_for(o.reports[i].client) => out.violate(
+                        "C11",
+                        "icmp:waiters-merged-by-shorter-data:reported-to-wrong-client",
+                        format!(
+                            "op {} answers no pending request, client {} was told (its own pending request has the same identifier and sequence number but other data; a third request with shorter data, still in the table, is a prefix of both)",
+                            d.op, o.reports[i].client
+                        ),
+                    ),
                     (Some(false), Some(&i)) => out.violate(
                         "C11",
                         format!("icmp:{}:{}:{}:reported", fam, kind_name, state),
@@ -1049,30 +1084,7 @@ fn judge(plan: &IPlan, o: &Obs, out: &mut Outcome) {
                             // pending request with the same identifier and sequence number (same
                             // family) but other data, and a third pending request carries data
                             // that is a prefix of both (the table keeps all three under one entry)
-                            let same_key = |n: usize| -> Option<&[u8]> {
-                                let sw = req_sent[n].wire.as_ref()?;
-                                if sw.packet.len() < 8 || sw.t_us > d.at || d.at - sw.t_us > t_us + eps || sw.dst.is_ipv4() != v4 {
-                                    return None;
-                                }
-                                let sid = u16::from_be_bytes([sw.packet[4], sw.packet[5]]);
-                                let sseq = u16::from_be_bytes([sw.packet[6], sw.packet[7]]);
-                                (sid == pid && sseq == pseq).then(|| &sw.packet[8..])
-                            };
-                            let prefix_related = |a: &[u8], b: &[u8]| if a.len() <= b.len() { b.starts_with(a) } else { a.starts_with(b) };
-                            let merged = (0..req_sent.len()).any(|n| {
-                                req_sent[n].client == r.client
-                                    && !cands.contains(&n)
-                                    && same_key(n).map_or(false, |rival| {
-                                        (0..req_sent.len()).any(|x| {
-                                            x != n
-                                                && same_key(x).map_or(false, |bridge| {
-                                                    bridge.len() < rival.len()
-                                                        && rival.starts_with(bridge)
-                                                        && pdata.as_ref().map_or(true, |pd| prefix_related(pd, bridge))
-                                                })
-                                        })
-                                    })
-                            });
+                            let merged = merged_for(r.client);
                             if merged {
                                 out.violate(
                                     "C11",
